@@ -15,6 +15,8 @@ func init() {
 			"D2 GetCount is the linear form zero + positive.TotalCount() + negative.TotalCount(); every IsEmpty path is justified by evidence on all three parts; GetZeroCount returns the zero weight in both variants. "+
 			"D3 iteration — ForEach reports (0, zero) exactly when zero ≠ 0, positive bins as (Value(i), c), negative bins as (−Value(i), c); the store callbacks return the user callback's verdict, the negative side is only visited if the positive iteration was not stopped; GetSum accumulates value·count for every bin and never stops the iteration. "+
 			"D4 batch quantiles store the single-query result for the same element. "+
+			"D5 the iteration contract of every store the sketch iterates through (the C04-D3 obligations re-evaluated: each bin reported once with its weight, the callback's stop verdict honoured immediately, channels closed). "+
+			"D6 coherence across Copy — the exact variant's Copy returns {inner.Copy(), statistics.Copy()} (a shared statistics object would let a later operation on either sketch change the other's count, extremes and sum). "+
 			"NOT DECIDED: 'within alpha of the true extremes', monotonicity in q, accuracy of the approximate sum (numeric).",
 		"one obligation per path of the extreme/emptiness tables, per iteration clause; non-trivial = a path evaluation was needed",
 		true, runC12)
@@ -30,6 +32,12 @@ func runC12(c *Ctx) {
 	c12Count(c, a)
 	c12ForEach(c, a)
 	c12Batch(c, a)
+	// the sketch iterates through its stores: their iteration contract (every bin once, stop honoured at once)
+	if storeI := c.P.NamedType(pkgStore, "Store"); storeI != nil {
+		c04Iteration(c, c.P.Implementations(storeI), "C12-D5")
+	}
+	// coherence after Copy: the exact variant's copy carries its own copy of the statistics
+	c10Wrappers(c, a, "C12-D6", "Copy")
 }
 
 type emptiness struct {
